@@ -94,6 +94,10 @@ pub fn grid(tier: &str) -> Vec<TeCfg> {
         c.hnsw_capacity = 3;
         v.push(c);
     }
+    // hard limit BELOW the soft drain threshold (nothing enforces hard >= soft; the hard limit must
+    // hold on its own)
+    v.push(mk("lru", 2, 8, 1, "euclidean", 2));
+    v.push(mk("learned", 2, 4, 2, "cosine", 1));
     v
 }
 
